@@ -12,7 +12,7 @@ from .core import DAY
 from .calendar_ref import is_bday, ymd
 
 # symbols that are prefixes / near-duplicates of one another, mixed with plain ones
-SYMS = ["AAA", "AAB", "AA", "BRK.B", "spy", "CCC", "B", "Eee", "FFF", "GGG"]
+SYMS = ["AAA", "AAB", "AA", "AA_1", "BRK.B", "spy", "CCC", "B", "Eee", "FFF"]
 
 
 def r4(x):
@@ -133,6 +133,17 @@ def gen_market(rng, n_assets, day0, n_bdays, adjust=True, faults=(), styles=None
         ap = inject_faults(rng, rows, [f for f in faults if f != "late_start"], adjust)
         if late:
             ap.append("late_start")
+        # volumes: usually positive; sometimes zero on some bars, or zero until the vendor "starts reporting"
+        vm = rng.random()
+        srt = sorted(rows, key=lambda r_: r_[0])
+        if vm < 0.12:
+            for r_ in rows:
+                if rng.random() < 0.3:
+                    r_[6] = 0
+        elif vm < 0.22 and len(rows) > 1:
+            k_ = rng.randrange(1, len(rows))
+            for r_ in srt[:k_]:
+                r_[6] = 0
         assets[sym] = {"rows": rows}
         if rng.random() < 0.3:
             # the header names the columns: any order, optional columns may be absent
